@@ -39,6 +39,152 @@ static SEEN: [AtomicU64; NUM_CLASSES] = [const { AtomicU64::new(0) }; NUM_CLASSE
 
 thread_local! {
 	static IN_HOOK: Cell<bool> = const { Cell::new(false) };
+	/// trace mode: table-like files this thread msynced since its last log truncation, and the
+	/// database files that were mapped when it issued the first of those msyncs
+	static CYCLE: std::cell::RefCell<(std::collections::BTreeSet<String>, Option<std::collections::BTreeSet<String>>)> = const { std::cell::RefCell::new((std::collections::BTreeSet::new(), None)) };
+}
+
+/// trace mode (C12, threaded): ordering rules over the observed calls, no failures injected
+static TRACE: AtomicBool = AtomicBool::new(false);
+/// microseconds every `ftruncate` of a table file (the `set_len` inside `TableFile::grow`, made
+/// under the table's exclusive map lock) is held before it is forwarded
+static GROW_DELAY_US: AtomicU64 = AtomicU64::new(0);
+static RULE_VIOLATIONS: std::sync::Mutex<Vec<String>> = std::sync::Mutex::new(Vec::new());
+static LOG_UNSYNCED: std::sync::Mutex<std::collections::BTreeMap<String, u64>> = std::sync::Mutex::new(std::collections::BTreeMap::new());
+pub static R1_CHECKS: AtomicU64 = AtomicU64::new(0);
+pub static R4_CHECKS: AtomicU64 = AtomicU64::new(0);
+pub static R4_FILES: AtomicU64 = AtomicU64::new(0);
+pub static GROW_DELAYS: AtomicU64 = AtomicU64::new(0);
+
+/// Observe (never fail) the calls on the database files of `root` and evaluate
+///  R1: a log file is read (for enactment) only while none of its appended bytes are unsynced;
+///  R4: when a thread truncates a log file, every table / index / ref-count file that was mapped
+///      when this thread began its flush (its first msync since its previous log truncation) and
+///      is still mapped has been msynced by this thread in between.
+pub fn start_trace(root: &std::path::Path, grow_delay_us: u64) {
+	start(root, 0);
+	RULE_VIOLATIONS.lock().unwrap().clear();
+	LOG_UNSYNCED.lock().unwrap().clear();
+	R1_CHECKS.store(0, Ordering::SeqCst);
+	R4_CHECKS.store(0, Ordering::SeqCst);
+	R4_FILES.store(0, Ordering::SeqCst);
+	GROW_DELAYS.store(0, Ordering::SeqCst);
+	GROW_DELAY_US.store(grow_delay_us, Ordering::SeqCst);
+	TRACE.store(true, Ordering::SeqCst);
+}
+
+pub fn stop_trace() -> Vec<String> {
+	TRACE.store(false, Ordering::SeqCst);
+	GROW_DELAY_US.store(0, Ordering::SeqCst);
+	stop();
+	std::mem::take(&mut *RULE_VIOLATIONS.lock().unwrap())
+}
+
+fn rule_violation(s: String) {
+	let mut v = RULE_VIOLATIONS.lock().unwrap();
+	if v.len() < 10 {
+		v.push(s);
+	}
+}
+
+/// File name (inside the database directory) behind `fd`, if it is a database file.
+fn fd_name(fd: c_int) -> Option<String> {
+	let mut link = [0u8; 40];
+	let s = format_fd(&mut link, fd);
+	let mut buf = [0u8; 512];
+	let n = unsafe { libc::syscall(libc::SYS_readlink, s.as_ptr(), buf.as_mut_ptr(), buf.len()) };
+	if n <= 0 {
+		return None
+	}
+	name_of(&buf[..n as usize])
+}
+
+fn name_of(path: &[u8]) -> Option<String> {
+	let root = ROOT.load(Ordering::SeqCst);
+	if root.is_null() {
+		return None
+	}
+	let root: &Vec<u8> = unsafe { &*root };
+	let path = path.strip_suffix(b" (deleted)").unwrap_or(path);
+	let name = path.strip_prefix(root.as_slice())?;
+	if name.contains(&b'/') || !is_db_file(name) {
+		return None
+	}
+	Some(String::from_utf8_lossy(name).to_string())
+}
+
+fn is_log_name(n: &str) -> bool {
+	n.starts_with("log")
+}
+
+/// Database files currently mapped into the process, and the one containing `addr` (if any).
+fn mapped_files(addr: usize) -> (std::collections::BTreeSet<String>, Option<String>) {
+	let mut all = std::collections::BTreeSet::new();
+	let mut hit = None;
+	let maps = match std::fs::read("/proc/self/maps") {
+		Ok(m) => m,
+		Err(_) => return (all, hit),
+	};
+	for l in maps.split(|b| *b == b'\n') {
+		let at = match l.iter().position(|b| *b == b'/') {
+			Some(a) => a,
+			None => continue,
+		};
+		let name = match name_of(&l[at..]) {
+			Some(n) => n,
+			None => continue,
+		};
+		let dash = l.iter().position(|b| *b == b'-').unwrap_or(0);
+		let sp = l.iter().position(|b| *b == b' ').unwrap_or(0);
+		let parse = |b: &[u8]| usize::from_str_radix(std::str::from_utf8(b).unwrap_or("x"), 16).ok();
+		if dash < sp {
+			if let (Some(lo), Some(hi)) = (parse(&l[..dash]), parse(&l[dash + 1..sp])) {
+				if addr >= lo && addr < hi {
+					hit = Some(name.clone());
+				}
+			}
+		}
+		all.insert(name);
+	}
+	(all, hit)
+}
+
+fn trace_on() -> bool {
+	TRACE.load(Ordering::Relaxed)
+}
+
+fn trace_msync(addr: usize) {
+	let (all, hit) = mapped_files(addr);
+	if let Some(name) = hit {
+		CYCLE.with(|c| {
+			let mut c = c.borrow_mut();
+			if c.1.is_none() {
+				c.1 = Some(all);
+			}
+			c.0.insert(name);
+		});
+	}
+}
+
+fn trace_log_truncate(log: &str) {
+	let started = CYCLE.with(|c| c.borrow_mut().1.take());
+	let synced = CYCLE.with(|c| std::mem::take(&mut c.borrow_mut().0));
+	if let Some(at_start) = started {
+		let (now, _) = mapped_files(0);
+		R4_CHECKS.fetch_add(1, Ordering::Relaxed);
+		for f in at_start.intersection(&now) {
+			R4_FILES.fetch_add(1, Ordering::Relaxed);
+			if !synced.contains(f) {
+				rule_violation(format!(
+					"R4 data-before-log-reuse: {} is truncated by a thread that flushed {} table file(s) since its previous log truncation but not {} (mapped before the flush began and still mapped)",
+					log,
+					synced.len(),
+					f
+				));
+			}
+		}
+	}
+	LOG_UNSYNCED.lock().unwrap().remove(log);
 }
 
 /// Start counting calls of the classes in `mask` on files of `root`; nothing fails yet.
@@ -189,7 +335,20 @@ pub unsafe extern "C" fn fdatasync(fd: c_int) -> c_int {
 		set_errno(libc::EIO);
 		return -1
 	}
-	libc::syscall(libc::SYS_fdatasync, fd) as c_int
+	let r = libc::syscall(libc::SYS_fdatasync, fd) as c_int;
+	if r == 0 && trace_on() {
+		gate(
+			|| {
+				if let Some(n) = fd_name(fd) {
+					if is_log_name(&n) {
+						LOG_UNSYNCED.lock().unwrap().insert(n, 0);
+					}
+				}
+			},
+			(),
+		);
+	}
+	r
 }
 
 #[no_mangle]
@@ -198,7 +357,20 @@ pub unsafe extern "C" fn fsync(fd: c_int) -> c_int {
 		set_errno(libc::EIO);
 		return -1
 	}
-	libc::syscall(libc::SYS_fsync, fd) as c_int
+	let r = libc::syscall(libc::SYS_fsync, fd) as c_int;
+	if r == 0 && trace_on() {
+		gate(
+			|| {
+				if let Some(n) = fd_name(fd) {
+					if is_log_name(&n) {
+						LOG_UNSYNCED.lock().unwrap().insert(n, 0);
+					}
+				}
+			},
+			(),
+		);
+	}
+	r
 }
 
 /// Is `addr` inside a mapping of a database file?
@@ -238,7 +410,11 @@ pub unsafe extern "C" fn msync(addr: *mut c_void, len: usize, flags: c_int) -> c
 		set_errno(libc::EIO);
 		return -1
 	}
-	libc::syscall(libc::SYS_msync, addr, len, flags) as c_int
+	let r = libc::syscall(libc::SYS_msync, addr, len, flags) as c_int;
+	if r == 0 && trace_on() {
+		gate(|| trace_msync(addr as usize), ());
+	}
+	r
 }
 
 #[no_mangle]
@@ -246,6 +422,26 @@ pub unsafe extern "C" fn ftruncate64(fd: c_int, len: i64) -> c_int {
 	if gate(|| fd_matches(fd) && decide(CLASS_TRUNCATE), false) {
 		set_errno(libc::EIO);
 		return -1
+	}
+	if trace_on() {
+		gate(
+			|| {
+				if let Some(n) = fd_name(fd) {
+					if is_log_name(&n) {
+						if len == 0 {
+							trace_log_truncate(&n);
+						}
+					} else if n.starts_with("table_") {
+						let us = GROW_DELAY_US.load(Ordering::Relaxed);
+						if us > 0 {
+							GROW_DELAYS.fetch_add(1, Ordering::Relaxed);
+							std::thread::sleep(std::time::Duration::from_micros(us));
+						}
+					}
+				}
+			},
+			(),
+		);
 	}
 	libc::syscall(libc::SYS_ftruncate, fd, len) as c_int
 }
@@ -270,7 +466,20 @@ pub unsafe extern "C" fn write(fd: c_int, buf: *const c_void, n: usize) -> isize
 		set_errno(libc::EIO);
 		return -1
 	}
-	libc::syscall(libc::SYS_write, fd, buf, n) as isize
+	let r = libc::syscall(libc::SYS_write, fd, buf, n) as isize;
+	if r > 0 && fd > 2 && trace_on() {
+		gate(
+			|| {
+				if let Some(name) = fd_name(fd) {
+					if is_log_name(&name) {
+						*LOG_UNSYNCED.lock().unwrap().entry(name).or_insert(0) += r as u64;
+					}
+				}
+			},
+			(),
+		);
+	}
+	r
 }
 
 #[no_mangle]
@@ -278,6 +487,22 @@ pub unsafe extern "C" fn read(fd: c_int, buf: *mut c_void, n: usize) -> isize {
 	if fd > 2 && gate(|| fd_matches(fd) && decide(CLASS_READ), false) {
 		set_errno(libc::EIO);
 		return -1
+	}
+	if fd > 2 && trace_on() {
+		gate(
+			|| {
+				if let Some(name) = fd_name(fd) {
+					if is_log_name(&name) {
+						R1_CHECKS.fetch_add(1, Ordering::Relaxed);
+						let unsynced = LOG_UNSYNCED.lock().unwrap().get(&name).copied().unwrap_or(0);
+						if unsynced > 0 {
+							rule_violation(format!("R1 log-synced-before-apply: {} is read for enactment while {} appended bytes were never synced", name, unsynced));
+						}
+					}
+				}
+			},
+			(),
+		);
 	}
 	libc::syscall(libc::SYS_read, fd, buf, n) as isize
 }
